@@ -47,6 +47,35 @@ pub fn documents(thorough: bool) -> Vec<V> {
     out
 }
 
+/// thorough tier only: every string of the scalar universe as a key (top level and nested, next to itself as a value),
+/// and every triple over a 14-element subset in three nested shapes
+pub fn deep_documents() -> Vec<V> {
+    let sc = scalars();
+    let mut out = vec![];
+    for x in &sc {
+        if let V::Str(k) = x {
+            if k.is_empty() || k.chars().any(|c| (c as u32) < 0x20 || matches!(c as u32, 0x7f..=0x9f | 0x2028 | 0x2029 | 0xfeff)) {
+                continue;
+            }
+            out.push(V::Map(vec![(k.clone(), i(1))]));
+            out.push(V::Map(vec![("k1".into(), V::Map(vec![(k.clone(), l(vec![x.clone()]))])), (k.clone(), x.clone())]));
+            out.push(V::Map(vec![("k1".into(), l(vec![V::Map(vec![(k.clone(), V::Null), ("z".into(), x.clone())])]))]));
+        }
+    }
+    let idx = [0usize, 1, 2, 3, 4, 7, 15, 17, 25, 27, 29, 30, 35, 37];
+    let pick: Vec<V> = idx.iter().filter_map(|k| sc.get(*k).cloned()).collect();
+    for a in &pick {
+        for b in &pick {
+            for c in &pick {
+                out.push(m(vec![("k1", l(vec![a.clone(), m(vec![("k2", b.clone()), ("k3", l(vec![c.clone()]))])])), ("k4", m(vec![("k5", m(vec![("k6", a.clone())]))]))]));
+                out.push(m(vec![("k1", a.clone()), ("k2", l(vec![l(vec![b.clone(), c.clone()]), l(vec![])])), ("k3", c.clone())]));
+                out.push(m(vec![("k1", l(vec![a.clone(), b.clone(), c.clone()]))]));
+            }
+        }
+    }
+    out
+}
+
 fn type_op(v: &V) -> &'static str {
     match v {
         V::Null => "is_null",
@@ -67,8 +96,13 @@ fn probes(v: &V, q: &str, out: &mut Vec<String>) {
     match v {
         V::Map(mm) => {
             for (k, x) in mm {
+                // a key that reads as an integer is an index in a query (`.7` is `[7]`): such entries cannot be addressed by
+                // name and are covered by the whole-document comparison only
+                if k.parse::<i32>().is_ok() {
+                    continue;
+                }
                 let simple = k.chars().next().map_or(false, |c| c.is_ascii_alphabetic()) && k.chars().all(|c| c.is_ascii_alphanumeric() || c == '_');
-                let kq = if simple { k.clone() } else { format!("'{}'", k) };
+                let kq = if simple { k.clone() } else { V::Str(k.clone()).guard_q(if k.contains('\'') { '"' } else { '\'' }) };
                 probes(x, &if q.is_empty() { kq } else { format!("{}.{}", q, kq) }, out);
             }
         }
@@ -279,8 +313,10 @@ fn rejected_inputs() -> Vec<(&'static str, &'static str)> {
 pub fn run(tier: &str) -> i32 {
     let thorough = tier == "thorough";
     let mut rep = Report::new("C11", tier);
-    let docs = documents(true);
-    let _ = thorough;
+    let mut docs = documents(true);
+    if thorough {
+        docs.extend(deep_documents());
+    }
     let lays = layouts_c11();
     let n = docs.len() * lays.len();
     let res = crate::par::run(n, rep.seed as u64, crate::par::deadline_secs(if thorough { 3000 } else { 45 }), Acc::new, |k, acc| {
